@@ -127,6 +127,17 @@ pub open spec fn requested(reqs: Seq<(&RepoInfo, KeyIdentifier)>, k: KeyIdentifi
 pub uninterp spec fn evs_current(rc: ResourceClass, key: CertifiedKey, c: ReceivedCert) -> Seq<CertAuthEvent>;
 pub uninterp spec fn evs_pending(rc: ResourceClass, c: ReceivedCert) -> Seq<CertAuthEvent>;
 /// events that do not touch the key state
+/// every key the class holds in this phase of a roll: pending / new (staged), current, old -- a certificate the parent lists for
+/// any of them is the CA's own, never an "unexpected key" to be revoked
+pub open spec fn own_key(ks: KeyState, k: KeyIdentifier) -> bool {
+    match ks {
+        KeyState::Pending(p) => p.key_id == k,
+        KeyState::Active(c) => c.key_id == k,
+        KeyState::RollPending(p, c) => p.key_id == k || c.key_id == k,
+        KeyState::RollNew(n, c) => n.key_id == k || c.key_id == k,
+        KeyState::RollOld(c, o) => c.key_id == k || o.key.key_id == k,
+    }
+}
 pub open spec fn key_neutral(ev: CertAuthEvent) -> bool {
     ev is CertificateRequested || ev is RoasUpdated || ev is AspaObjectsUpdated || ev is ChildCertificatesUpdated || ev is BgpSecCertificatesUpdated
 }
@@ -284,6 +295,7 @@ pub open spec fn key_neutral(ev: CertAuthEvent) -> bool {
                             && (self is RollOld && wants_raw(self->RollOld_0, ent_res(*entitlement), ent_na(*entitlement)) ==> requested(r@, self->RollOld_0.key_id))'''),
                       ('no_request_without_cause', '''self is Active && !wants_raw(self->Active_0, ent_res(*entitlement), ent_na(*entitlement)) ==> r@.len() == 0'''),
                   ]),
+        U.fn(KEYS, 'KeyState', 'knows_key', ensures=[('every_key_of_the_roll_is_our_own', 'r == own_key(*self, key_id)')]),
         U.fn(KEYS, 'KeyState', 'new_key', ensures=[('iff_roll_new', 'r is Some <==> phase(*self) is RollNew'), ('is_new', 'r is Some ==> *r->Some_0 == self->RollNew_0')]),
         U.fn(KEYS, 'KeyState', 'create_issuance_req', external_body=True),
         U.fn(KEYS, 'KeyState', 'revoke_key'),
